@@ -377,6 +377,9 @@ def run(ctx, report):
     R15 = report.rule('C02.D15', 'the direct-offset rows (A0-A3) are offered for an absolute address only: the accepting branch of asm_candidates evaluated on operands with no register, '
                       'with a register of coefficient 1 / 2 / 4 / 8 and with the merged coefficients 3 / 5 / 9', floor=8)
     moffs_guard_rule(R15, X)
+    R17 = report.rule('C02.D17', 'the fsub / fsubr and fdiv / fdivr exchange of AT&T syntax (att_bug_fsub_fdiv evaluated on 8 mnemonics x 7 operand lists): exchanged for the popping forms and for a '
+                      'destination %st(i), i != 0, only - `fsub %st(2)` assembles to fsub', floor=50)
+    att_fsub_rule(R17, X)
     R16 = report.rule('C02.D16', 'a segment override in `SIZE PTR seg:[..]` is dropped only when every encoding of the address has that segment as its default (p_ptrformula_2 evaluated on segment '
                       'x address shape, ebp / esp as base, as scaled index and beside another unscaled register): the candidates address the segment the line names', floor=100)
     from .c03 import ptrformula_rule
@@ -1092,6 +1095,43 @@ def emission_rule(R1, X):
                      'width of its checked size, back to back)' % bad, where(arch, loops[0]), witness="asm('mov DWORD PTR [eax+8], 0x12345678')")
     else:
         R1.ok(inst, sample='the emission loop evaluated on %d candidates (6 displacement kinds x 8 immediate lists x 2 operand-size modes): bytes and symbol offsets are exact' % n_ok, nontrivial=True)
+
+
+def att_fsub_rule(R, X):
+    """GNU as keeps a historical quirk (Debian bug 372528): for the non-commutative x87 operations the AT&T mnemonics fsub / fsubr and fdiv / fdivr (and their popping forms) are
+    exchanged when the destination is %st(i), i != 0.  `att_bug_fsub_fdiv` is evaluated from its source on the eight mnemonics x the operand lists the parsers deliver (none, one
+    register, st / st(i) in both roles, memory): the name is exchanged exactly for the popping forms and for two operands whose destination is not st(0); `fsub %st(2)` stays fsub."""
+    from ..consteval import Evaluator, NotConst, PyRaise
+    arch, afs = X.arch, X.afs
+    fn = arch.funcs.get('att_bug_fsub_fdiv')
+    if fn is None:
+        raise AnalysisError('ia32_arch.att_bug_fsub_fdiv not found')
+    scope = dict((k_, v_) for k_, v_ in X.env.items() if isinstance(v_, (str, int, bool, list, tuple, dict)) or v_ is None)
+    scope['x86_afs'] = afs
+    for fname_, fnode_ in arch.funcs.items():
+        scope.setdefault(fname_, fnode_)
+    st = lambda i: {i: 1, afs.ad: False, afs.size: afs.f64}
+    mem = {3: 1, afs.ad: afs.f32, afs.size: afs.f32}
+    lists = [('no operand', [], None), ('%st(2)', [st(2)], None), ('memory', [dict(mem)], None), ('destination st, source st(2)', [st(0), st(2)], 0), ('destination st(2), source st', [st(2), st(0)], 2),
+             ('destination st(1), source st', [st(1), st(0)], 1), ('%st(0)', [st(0)], None)]
+    swap = {'fsub': 'fsubr', 'fsubr': 'fsub', 'fdiv': 'fdivr', 'fdivr': 'fdiv', 'fsubp': 'fsubrp', 'fsubrp': 'fsubp', 'fdivp': 'fdivrp', 'fdivrp': 'fdivp'}
+    for name in sorted(swap):
+        for label, ops, dest in lists:
+            want = swap[name] if (name.endswith('p') or (len(ops) == 2 and dest != 0)) else name
+            inst = 'att-fsub:%s:%s' % (name, label)
+            try:
+                got = Evaluator(scope).call_user(fn, [name, [dict(o) for o in ops], 'att_syntax'])
+            except PyRaise as e:
+                R.violation(inst, 'att-fsub:%s:raises' % name, 'att_bug_fsub_fdiv(%s, %s) raises %s' % (name, label, e.exc_name), where(arch, fn))
+                continue
+            except NotConst as e:
+                raise AnalysisError('att_bug_fsub_fdiv is outside the evaluable subset: %s' % e)
+            if got == want:
+                R.ok(inst, sample='%s with %s is %s' % (name, label, want), nontrivial=(got != name))
+            else:
+                R.violation(inst, 'att-fsub:%s:%s' % ('popping' if name.endswith('p') else 'plain', 'one-operand' if len(ops) == 1 else '%d-operands' % len(ops)),
+                            'the AT&T mnemonic %s with operands (%s) is taken for %s; GNU as means %s (the exchange applies to the popping forms and to a destination %%st(i), i != 0, only)'
+                            % (name, label, got, want), where(arch, fn), witness="asm_att('fsub %st(2)') is d8 e2")
 
 
 def moffs_guard_rule(R, X):
